@@ -4,8 +4,12 @@ package beacon
 
 import (
 	"context"
+	"sort"
 
+	"github.com/drand/drand/v2/common/log"
+	"github.com/drand/drand/v2/crypto"
 	"github.com/drand/drand/v2/internal/chain"
+	"github.com/drand/drand/v2/protobuf/drand"
 )
 
 // Accessors used by /verif harnesses (overlaid at build time, never committed to the repository).
@@ -13,3 +17,38 @@ import (
 func VerifNewAppendStore(ctx context.Context, s chain.Store) (chain.Store, error) {
 	return newAppendStore(ctx, s)
 }
+
+// VerifPartialCache exposes the real partial-signature cache of the aggregator.
+type VerifPartialCache struct{ c *partialCache }
+
+func VerifNewPartialCache(l log.Logger, s *crypto.Scheme) *VerifPartialCache {
+	return &VerifPartialCache{newPartialCache(l, s)}
+}
+func (v *VerifPartialCache) Append(p *drand.PartialBeaconPacket) error { return v.c.Append(p) }
+func (v *VerifPartialCache) Flush(round uint64)                         { v.c.FlushRounds(round) }
+
+// Rounds returns, per cached (round, previous) entry, the signer indices present.
+func (v *VerifPartialCache) Rounds() map[string][]int {
+	out := map[string][]int{}
+	for id, rc := range v.c.rounds {
+		l := []int{}
+		for idx := range rc.sigs {
+			l = append(l, idx)
+		}
+		sort.Ints(l)
+		out[id] = l
+	}
+	return out
+}
+
+// Rcvd returns the per-signer bookkeeping lists.
+func (v *VerifPartialCache) Rcvd() map[int][]string {
+	out := map[int][]string{}
+	for k, l := range v.c.rcvd {
+		out[k] = append([]string{}, l...)
+	}
+	return out
+}
+func VerifRoundID(round uint64, prev []byte) string { return roundID(round, prev) }
+func VerifMaxPartialsPerNode() int                  { return MaxPartialsPerNode }
+func VerifCallbackWorkerQueue() int                 { return CallbackWorkerQueue }
